@@ -90,6 +90,7 @@ Predict(mode) ==
   IN
   CASE mode \in {"list", "summary", "drydir"} -> out(<<>>, 0, keep)
     [] mode = "dry"      -> out(<<>>, 0, keep)
+    [] mode = "dryfailpre" -> out(<<>>, IF UpToDate("t", FALSE).up THEN 0 ELSE 201, keep)   \* --dry while the precondition of a called task fails
     [] mode = "status"   -> out(<<>>, IF UpToDate("t", FALSE).up THEN 0 ELSE 1, keep)
     [] mode = "listjson" ->
          IF "ListJsonWrites" \in KF
@@ -113,7 +114,7 @@ Predict(mode) ==
                 [] b.how = "fail" -> out(b.ran, b.exit, AfterFailure(task, st))
                 [] b.how = "kill" -> out(b.ran, b.exit, st)
 
-Modes == {"run", "other", "fail1", "fail2", "failpre", "cancelsib", "kill1", "kill2", "prompt", "force", "dry", "status", "list", "listjson", "summary", "drydir"}
+Modes == {"run", "other", "fail1", "fail2", "failpre", "cancelsib", "kill1", "kill2", "prompt", "force", "dry", "status", "list", "listjson", "summary", "drydir", "dryfailpre"}
 
 \* an invocation as the model sees it: the observation is the prediction, read-only modes change nothing
 Invoke(mode) ==
